@@ -139,6 +139,15 @@ Proof.
   cbn [map]. rewrite qprod_nil. ring.
 Qed.
 
+Lemma lumped_merge_both : forall zl z,
+  qsum (map snd (merge_grid Qplus 0 zl z)) == qsum (map snd zl) /\
+  qprod (map snd (merge_grid Qmult 1 zl z)) == qprod (map snd zl).
+Proof. intros zl z. split; [apply lumped_merge_db|apply lumped_merge_lin]. Qed.
+
+Lemma merge_grid_sorted : forall (op : Q -> Q -> Q) one zl z,
+  StronglySorted (fun a b : Q * Q => fst a < fst b) (merge_grid op one zl z).
+Proof. intros op one zl z. exact (merge_list_sorted Q op _). Qed.
+
 (* ================================================================================================
    2. the loss budget of a fibre span (Raman off) *)
 Lemma lumped_m_snd : forall fib, map snd (lumped_m fib) = map snd (f_lumped fib).
